@@ -11,8 +11,8 @@ From Mant Require Import Prim.Bytes Prim.Dec Algo.Word Algo.DES Algo.PBKDF2 Mode
 Import ListNotations.
 Open Scope N_scope.
 
-(* hash := md4.New(); hash.Write(x); hash.Sum() *)
-Definition md4_of (x : list N) : list N := fst (md4_sum (md4_write md4_new x)).
+(* hash := md4.New(); hash.Write(x); hash.Sum()   — the same three calls as md4.Sum(data) (Md4Go.md4_sum_data) *)
+Definition md4_of (x : list N) : list N := md4_sum_data x.
 
 (* strings.ToLower(hex.EncodeToString(h[:])) : EncodeToString already yields lower-case digits *)
 Definition hex_lower (h : list N) : list N := map to_lower (hex_of_bytes false h).
